@@ -439,14 +439,23 @@ func c12EndBlock(p *Prog, c *Check) {
 		return
 	}
 	c.Analysed(shortFn(eb))
-	fi := p.Info(eb)
+	efi := p.Info(eb)
 	app, _ := p.Named("app.ShutterApp")
-	diffs := callsTo(eb, "app.DiffPowermaps")
+	// the diff is computed in EndBlock or in a helper only EndBlock's call tree reaches
+	var diffs []CallSite
+	for _, f := range p.CG().Reachable([]*ssa.Function{eb}, func(f *ssa.Function) bool { return !inModule(f) }) {
+		for _, ci := range callsTo(f, "app.DiffPowermaps") {
+			diffs = append(diffs, CallSite{f, ci})
+		}
+	}
 	if len(diffs) != 1 {
-		c.Fail(rule, "EndBlock:diff", p.Rel(eb.Pos()), shortFn(eb), "EndBlock", fmt.Sprintf("expected one DiffPowermaps call, found %d", len(diffs)))
+		c.Fail(rule, "EndBlock:diff", p.Rel(eb.Pos()), shortFn(eb), "EndBlock", fmt.Sprintf("expected one DiffPowermaps call reachable from EndBlock, found %d", len(diffs)))
 		return
 	}
-	d := diffs[0].(*ssa.Call)
+	fn := diffs[0].Caller
+	fi := p.Info(fn)
+	c.Analysed(shortFn(fn))
+	d := diffs[0].Instr.(*ssa.Call)
 	oldArg, newArg := d.Common().Args[0], d.Common().Args[1]
 	okNew := ParsePat("CurrentValidators(_)").Match(fi.T(newArg), Binds{})
 	okOld := false
@@ -457,27 +466,48 @@ func c12EndBlock(p *Prog, c *Check) {
 			oldLoad = ld
 		}
 	}
-	c.Result(okNew && okOld, rule, "EndBlock:diff-args", p.siteOf(d), shortFn(eb), "DiffPowermaps(old, new)", "the diff is not computed from (app.Validators, CurrentValidators()) in that order: "+fi.T(oldArg).s+", "+fi.T(newArg).s, "old = app.Validators, new = CurrentValidators()")
+	c.Result(okNew && okOld, rule, "EndBlock:diff-args", p.siteOf(d), shortFn(fn), "DiffPowermaps(old, new)", "the diff is not computed from (app.Validators, CurrentValidators()) in that order: "+fi.T(oldArg).s+", "+fi.T(newArg).s, "old = app.Validators, new = CurrentValidators()")
 	// app.Validators = new, after the old value was read, on every path to a return
 	var stv *ssa.Store
 	for _, w := range p.fieldWrites(app, "Validators") {
-		if origin(w.Fn) == eb && w.Kind == "store" {
+		if origin(w.Fn) == fn && w.Kind == "store" {
 			stv = w.Instr.(*ssa.Store)
 		}
 	}
 	okSt := stv != nil && stv.Val == newArg && oldLoad != nil && instrDominates(oldLoad, stv)
 	if okSt {
-		for _, r := range returnsOf(eb) {
+		for _, r := range returnsOf(fn) {
 			if !instrDominates(stv, r) {
 				okSt = false
 			}
 		}
 	}
-	c.Result(okSt, rule, "EndBlock:assign-new", p.Rel(eb.Pos()), shortFn(eb), "app.Validators = newValidators", "app.Validators is not updated to the same new map (after the old one was diffed) on every path: the next block would diff against a stale set", "store of CurrentValidators() result dominates all returns")
+	// a helper must run on every path of EndBlock
+	var helperCall ssa.CallInstruction
+	if okSt && fn != eb {
+		hc := p.CG().Callers(fn)
+		if len(hc) != 1 || origin(hc[0].Caller) != eb {
+			okSt = false
+		} else {
+			helperCall = hc[0].Instr
+			for _, r := range returnsOf(eb) {
+				if !instrDominates(helperCall, r) {
+					okSt = false
+				}
+			}
+		}
+	}
+	c.Result(okSt, rule, "EndBlock:assign-new", p.Rel(fn.Pos()), shortFn(fn), "app.Validators = newValidators", "app.Validators is not updated to the same new map (after the old one was diffed) on every path: the next block would diff against a stale set", "store of CurrentValidators() result dominates all returns")
 	// the returned updates are the diff's
 	n := 0
+	if fn != eb {
+		for _, r := range returnsOf(fn) {
+			ok := len(r.Results) == 1 && ParsePat("ValidatorUpdates(DiffPowermaps(...))").Match(fi.T(r.Results[0]), Binds{})
+			c.Result(ok, rule, "EndBlock:helper-result@"+retKey(fi, r), p.siteOf(r), shortFn(fn), "result of the diff helper", "the helper does not return the diff's ValidatorUpdates()", "DiffPowermaps(...).ValidatorUpdates()")
+		}
+	}
 	for _, r := range returnsOf(eb) {
-		flds := fi.structLitFields(r.Results[0])
+		flds := efi.structLitFields(r.Results[0])
 		if flds == nil {
 			continue
 		}
@@ -487,12 +517,15 @@ func c12EndBlock(p *Prog, c *Check) {
 		}
 		n++
 		ok := ParsePat("ValidatorUpdates(DiffPowermaps(...))").Match(vu, Binds{})
-		c.Result(ok, rule, "EndBlock:returned-updates@"+retKey(fi, r), p.siteOf(r), shortFn(eb), "ResponseEndBlock.ValidatorUpdates", "returned updates are not the diff's ValidatorUpdates(): "+vu.s, "DiffPowermaps(...).ValidatorUpdates()")
+		if fn != eb {
+			ok = vu.K == TCall && vu.Callee != nil && origin(vu.Callee) == fn
+		}
+		c.Result(ok, rule, "EndBlock:returned-updates@"+retKey(efi, r), p.siteOf(r), shortFn(eb), "ResponseEndBlock.ValidatorUpdates", "returned updates are not the diff's ValidatorUpdates(): "+vu.s, "DiffPowermaps(...).ValidatorUpdates()")
 	}
 	c.Floor(rule, n, 1)
-	// only EndBlock and InitChain write app.Validators
+	// only the diffing function and InitChain write app.Validators
 	for _, w := range p.fieldWrites(app, "Validators") {
-		ok := origin(w.Fn) == eb || shortFn(w.Fn) == "(*app.ShutterApp).InitChain"
+		ok := origin(w.Fn) == fn || shortFn(w.Fn) == "(*app.ShutterApp).InitChain"
 		c.Result(ok, rule, "Validators-write@"+shortFn(w.Fn), p.siteOf(w.Instr), shortFn(w.Fn), "write of app.Validators", "the validator map is written outside EndBlock/InitChain", "EndBlock / InitChain")
 	}
 }
@@ -613,27 +646,36 @@ func c12Updates(p *Prog, c *Check) {
 
 func c12Flags(p *Prog, c *Check) {
 	rule := "C12-R4"
-	eb, err := p.Func("app.ShutterApp.EndBlock")
-	if !c.Must(err) {
-		return
-	}
-	fi := p.Info(eb)
+	// every store of BatchConfig.ValidatorsUpdated in the app package (wherever a refactoring put it);
+	// guards may live in the storing function or its callers
 	n := 0
-	for _, blk := range eb.Blocks {
-		for _, in := range blk.Instrs {
-			st, ok := in.(*ssa.Store)
-			if !ok {
-				continue
+	for _, fn := range p.Funcs {
+		if relPkg(fnPkgPath(fn)) != "app" || isTestScaffold(fn) {
+			continue
+		}
+		fi := p.Info(fn)
+		for _, blk := range fn.Blocks {
+			for _, in := range blk.Instrs {
+				st, ok := in.(*ssa.Store)
+				if !ok {
+					continue
+				}
+				fa, ok := st.Addr.(*ssa.FieldAddr)
+				if !ok || fieldName(fa.X.Type(), fa.Field) != "ValidatorsUpdated" || baseAlloc(fa) != nil {
+					continue
+				}
+				n++
+				c.Analysed(shortFn(fn))
+				b := Binds{"cfg": fi.T(fa.X)}
+				key := fmt.Sprintf("%s:ValidatorsUpdated#%d", fnName(fn), n)
+				if fi.T(st.Val).s != "true" {
+					c.Fail(rule, key, p.siteOf(st), shortFn(fn), "config.ValidatorsUpdated = "+fi.T(st.Val).s, "ValidatorsUpdated is written with something other than true")
+					continue
+				}
+				c.Guard(p, rule, key, st, "config.ValidatorsUpdated = true", b,
+					"cur($cfg.Started) == true",
+					"numRequiredTransitionValidators($cfg) <= countCheckedInKeypers(_, $cfg.Keypers)")
 			}
-			fa, ok := st.Addr.(*ssa.FieldAddr)
-			if !ok || fieldName(fa.X.Type(), fa.Field) != "ValidatorsUpdated" {
-				continue
-			}
-			n++
-			b := Binds{"cfg": fi.T(fa.X)}
-			c.Guard(p, rule, fmt.Sprintf("EndBlock:ValidatorsUpdated#%d", n), st, "config.ValidatorsUpdated = true", b,
-				"cur($cfg.Started) == true",
-				"numRequiredTransitionValidators($cfg) <= countCheckedInKeypers(_, $cfg.Keypers)")
 		}
 	}
 	c.Floor(rule, n, 1)
@@ -694,6 +736,31 @@ func c12Powermap(p *Prog, c *Check) {
 				continue
 			}
 			kt := fi.T(mu.Key)
+			if kphi, isPhi := mu.Key.(*ssa.Phi); isPhi {
+				// the key is selected before the update: decide each incoming value on its own edge
+				okAll := true
+				why := ""
+				for i, e := range kphi.Edges {
+					et := fi.T(e)
+					pred := kphi.Block().Preds[i]
+					pf := append(append([]Atom{}, fi.blockFacts(pred)...), fi.edgeAtoms(pred, kphi.Block())...)
+					switch {
+					case ParsePat("_.Identities[_]").Match(et, Binds{}):
+						if _, has := findAtom(pf, "ok($kt) == true", Binds{"kt": et}); !has {
+							okAll, why = false, "identity "+et.s+" selected without a successful lookup"
+						}
+					case et.K == TGlobal || strings.Contains(et.s, "NonExistentValidator"):
+						if _, has := findAtom(pf, "ok(_.Identities[_]) == false", Binds{}); !has {
+							okAll, why = false, "placeholder selected although the identity lookup did not fail"
+						}
+					default:
+						okAll, why = false, "power is credited to a key that is neither the keyper's identity nor the placeholder: "+et.s
+					}
+				}
+				c.Result(okAll, rule, key, p.siteOf(mu), shortFn(fn), "pm[k] += 10", why, "every selected key is the identity (lookup ok) or the placeholder (lookup failed)")
+				n++ // one update site standing for both keys
+				continue
+			}
 			if ParsePat("_.Identities[_]").Match(kt, Binds{}) {
 				c.Guard(p, rule, key, mu, "pm[identity] += 10", Binds{"kt": kt}, "ok($kt) == true")
 			} else if kt.K == TGlobal || strings.Contains(kt.s, "NonExistentValidator") {
